@@ -46,6 +46,7 @@ def run(res, tier):
         "8x8 grid, 8 steps per synchrotron period; laststep in {0,1,3,4}; the configuration axes tracking on/off and RenormalizeCharge {default, 3, 2} exist on the binary side only (the label trace does not depend on them)",
         "the final record of every behaviour is compared, bit for bit, with the record of the step reached in a run of the same physics that writes every step",
         "SIGINT is raised synchronously at the hook (std::raise), i.e. the real handler installed by main() runs",
+        "every second behaviour is also replayed on a run that writes no results file (--run_anyway, no -o): same label trace minus the hook points inside the file blocks, same final message, exit status 0",
         "every third behaviour is replayed on a process that inherited SIGINT as 'ignored' (what a background job of a non-interactive shell gets): main() installs its handler regardless, so the model's behaviour must be observed there too"]
     flag_readers(res)
     exe = pl.build.build_bin("hook")
@@ -97,11 +98,19 @@ def run(res, tier):
             probs = conform.compare(t, ob, ref)
             if not use_track:
                 probs += conform.final_record_problems(t, ob, dense[(t["cfg"]["wake"], t["cfg"]["drf"], t["cfg"].get("renorm"))])
+            if i % 2 == 0 and not use_track:
+                # the same behaviour without a results file (--run_anyway, no -o): completes the step, says the same, exits successfully
+                np_, nl = conform.nofile_problems(exe, t, wd, "%s_%d" % (name, i))
+                probs += np_
+                ob["nofile"] = nl is not None
             return t, ob, probs, (use_track, ign)
         for t, ob, probs, (tr, ign) in pl.pmap(do, list(enumerate(terms))):
             tot_traces += 1
             case = "cfg=%s signals-at-hits=%s%s%s" % (t["cfg"], t["sigAt"], " tracking" if tr else "", " sigint-inherited-ignored" if ign else "")
             res.eval(case, pl.chash(case, ob["labels"]), trivial=False)
+            if ob.get("nofile"):
+                res.eval(case + " without a results file", pl.chash(case, "nofile"), trivial=False)
+                res.coverage["behaviours_replayed_without_a_results_file"] = res.coverage.get("behaviours_replayed_without_a_results_file", 0) + 1
             where = "no-signal" if not t["sigAt"] else ("setup" if t["trace"][t["sigAt"][0] - 1].startswith("S") else "final-block" if t["trace"][t["sigAt"][0] - 1][0] in "FE" else "loop")
             for kind, detail in probs:
                 res.violate("C14/%s/%s/%d-signal%s" % (kind, where, len(t["sigAt"]), "s" if len(t["sigAt"]) != 1 else ""), case, detail, replay=dict(cmd=ob["cmd"], model=dict(t, trace=" ".join(t["trace"]))))
